@@ -130,7 +130,10 @@ impl Prop for C15 {
                 // verbatim material (asm bodies, off regions) with trailing blanks, comments and all three
                 // line-end styles: cursor arithmetic over whitespace that is copied, not generated
                 let body = *rng.pick(super::c07::ASM_BODIES);
-                let text = match rng.below(3) {
+                let text = match rng.below(5) {
+                    // no final line break, last token a line comment inside an open region / after code
+                    3 => "begin\n  A := 1; // pasfmt off\n  B   :=   2; // x".to_string(),
+                    4 => "begin\n  A   :=  1;\nend. // done".to_string(),
                     0 => format!("procedure P;\nbegin\n  X:=1;\n  asm\n    {body}  \n  end;\n  Y   :=  2;\nend;\n"),
                     1 => "begin\n  A := 1; // pasfmt off\n  B   :=   2; // x \n  // y\n\n  C := 3; { pasfmt on }\n  D:=4;\nend.\n".to_string(),
                     _ => format!("begin\n  {{pasfmt off}}\n  asm\n  {body}\n  end; // c\n  {{pasfmt on}} Z:=1;\nend.\n"),
